@@ -37,5 +37,5 @@ def generate(rng, tier):
 
 LEVEL_TEXT = ('Kernel-checked theorems for every libm: the dot product is fabs(value) at blade 0 when value >= 0 and blade 2 when value < 0, remainder exactly 0, where value = fmul(fmul |a| |b|) cosF(grade_angle(b.angle - a.angle)); '
               'is_orthogonal is exactly "dot magnitude <_F 1e-10"; the angle difference fed to cos is canonical (never negative) for canonical operands. C09_self: a.a is fl(|a||a|) at angle exactly 0 when cos(+0)=1; C09_bound: under |cosF| <= 1 the magnitude never exceeds fl(|a||b|). '
-              'C09_cos_value / C09_value / C09_orthogonal_value (S2, REAL pi, all canonical operands and blades): for any libm with |cosF - cos| <= u on [-8,8] the cosine factor is within u + 1.0001e-10 of cos(dir b - dir a), every finite dot value is within |a||b|(u + 1.0002e-10) + 2^-1073 of |a||b|cos(dir b - dir a), and a pair reported orthogonal has |a||b||cos| < 1e-10 + that error; the hypothesis is shown satisfiable (u = 2^-52). Symmetry is decided against mpmath (S3).')
+              'C09_cos_value / C09_value / C09_orthogonal_value (S2, REAL pi, all canonical operands and blades): for any libm with |cosF - cos| <= u on [-8,8] the cosine factor is within u + 1.0001e-10 of cos(dir b - dir a), every finite dot value is within |a||b|(u + 1.0002e-10) + 2^-1073 of |a||b|cos(dir b - dir a), and a pair reported orthogonal has |a||b||cos| < 1e-10 + that error; the hypothesis is shown satisfiable (u = 2^-52). C09_symmetry: a.b and b.a agree within twice that tolerance. The cases of each run are additionally decided against mpmath (S3).')
 LEVEL_NOTE = ('Partial. Trusted: Coq kernel + vm_compute; 4 standard-library axioms; plus the primitive-integer axioms (PrimInt63.*, Uint63.*_spec) that the Interval tactic uses for the two bounds on the real pi in PiBounds.v (value theorems only); hand-written model validated bit-for-bit each run with the recorded libm table; glibc cos accuracy enters the value theorems only as the explicit premise cos_acc (monitored on every recorded call).')
